@@ -232,10 +232,10 @@ var modelTypes = map[string]struct {
 }{}
 
 func (e *Exec) zero(t types.Type) Value {
-	if m, ok := modelTypes[typeKey(t)]; ok {
+	if m, ok := modelTypes[typeKey(t)]; ok && m.zero != nil {
 		return m.zero()
 	}
-	if m, ok := modelTypes[namedOrigin(t)]; ok {
+	if m, ok := modelTypes[namedOrigin(t)]; ok && m.zero != nil {
 		return m.zero()
 	}
 	switch u := t.Underlying().(type) {
